@@ -365,6 +365,90 @@ fn run_cap(c: &CapCase) -> Verdict {
     })
 }
 
+// ---- the /rr/ cap under real parallelism: check-and-insert must be one critical section -------------------
+#[derive(Debug, Clone, Serialize, Deserialize)]
+pub struct CapThreadsCase {
+    /// free slots when the burst starts (0..=3)
+    free: u8,
+    /// callers in the burst beyond the free slots (8..=31)
+    callers: u8,
+    /// payload size class of the burst (bigger payloads keep a caller longer between check and insert)
+    payload: u8,
+}
+fn run_cap_threads(c: &CapThreadsCase) -> Verdict {
+    let rt = tokio::runtime::Builder::new_multi_thread().worker_threads(8).enable_all().build().expect("runtime");
+    let mut v = rt.block_on(async {
+        let mut v = Verdict::new();
+        let t_req = Duration::from_secs(4);
+        let hub = Hub::new(5, 0);
+        let node = match add_node(&hub, tid_bytes(0x47, 0), node_addr(0), None, t_req, 8).await {
+            Ok(n) => std::sync::Arc::new(n),
+            Err(e) => {
+                v.fail(format!("{ID}/harness/node-construction-failed"), e);
+                return v;
+            }
+        };
+        let sid = add_stub(&hub, tid_bytes(0x47, 1), node_addr(1), StubScript::default());
+        let _ = node.th.connect_peer(&node_addr(1).to_string()).await;
+        tokio::time::sleep(Duration::from_millis(10)).await;
+        hub.set_mode(&sid, Mode::Silent);
+        let free = (c.free % 4) as usize;
+        let fill = 256 - free;
+        let mut hs = Vec::new();
+        for _ in 0..fill {
+            let nd = node.clone();
+            let p = sid.clone();
+            hs.push(tokio::spawn(async move { nd.th.send_request(&p, "test", b"x".to_vec(), t_req).await.is_ok() }));
+        }
+        let t0 = std::time::Instant::now();
+        while node.th.verif_active_requests_len().await < fill && t0.elapsed() < Duration::from_secs(3) {
+            tokio::time::sleep(Duration::from_millis(2)).await;
+        }
+        if node.th.verif_active_requests_len().await != fill {
+            // the machine is too slow to set the scene before the first requests time out: not judged
+            v.class("scene_not_set(not judged)");
+            for h in hs {
+                h.abort();
+            }
+            return v;
+        }
+        let callers = free + 8 + (c.callers % 24) as usize;
+        let size = [1usize << 10, 64 << 10, 512 << 10, 2 << 20][(c.payload % 4) as usize];
+        let barrier = std::sync::Arc::new(tokio::sync::Barrier::new(callers));
+        let mut burst = Vec::new();
+        for _ in 0..callers {
+            let (nd, p, b) = (node.clone(), sid.clone(), barrier.clone());
+            let payload = vec![0x5a; size];
+            burst.push(tokio::spawn(async move {
+                b.wait().await;
+                nd.th.send_request(&p, "test", payload, t_req).await.is_ok()
+            }));
+        }
+        // watch the table while the burst runs
+        let mut max_len = 0usize;
+        let t1 = std::time::Instant::now();
+        while t1.elapsed() < Duration::from_millis(400) {
+            max_len = max_len.max(node.th.verif_active_requests_len().await);
+            tokio::time::sleep(Duration::from_micros(300)).await;
+        }
+        let refused = burst.iter().filter(|h| h.is_finished()).count();
+        if max_len > 256 {
+            v.fail(format!("{ID}/TransportHandle::send_request/more-than-256-requests-pending"), format!("{max_len} entries while {callers} parallel callers competed for {free} free slots ({} were refused, payload {size} bytes)", refused));
+        }
+        v.class(format!("payload_{size}"));
+        v.count("burst_callers", callers as u64);
+        v.nt(true);
+        for h in hs.into_iter().chain(burst) {
+            h.abort();
+        }
+        let _ = tokio::time::timeout(Duration::from_secs(5), node.mgr.stop()).await;
+        v
+    });
+    rt.shutdown_timeout(Duration::from_secs(5));
+    v.class("real_threads");
+    v
+}
+
 // ---- cancelled DHT callers on the real clock: the 2× timeout sweep ---------------------------------
 #[derive(Debug, Clone, Serialize, Deserialize)]
 pub struct SweepCase {
@@ -839,6 +923,8 @@ pub fn run(run: &Run) {
     run.prop_f("core", run.tier.pick(12000, 100000), sh, core_case, run_core);
     run.set_rule("core_cap", "3334..3373 concurrent retrieves of 3 queries each against the core-engine table: at most 10 000 pending, queries beyond the cap refused before they are sent, table empty after the timeouts");
     run.prop("core_cap", run.tier.pick(4, 24), 4, any::<u8>().prop_map(|extra| CoreCapCase { extra }), run_core_cap);
+    run.set_rule("cap_threads", "real threads (8 workers): the /rr/ table is filled to 253..256 entries towards a silent peer, then 8..31 callers beyond the free slots, released by a barrier with payloads of 1 KiB..2 MiB, compete for them: the table must never exceed 256 entries (sampled every 0.3 ms for 400 ms)");
+    run.prop("cap_threads", run.tier.pick(24, 400), 2, (any::<u8>(), any::<u8>(), any::<u8>()).prop_map(|(free, callers, payload)| CapThreadsCase { free, callers, payload }), run_cap_threads);
     run.set_rule("sweep", "real clock, request timeout 40 ms: 1..12 DHT callers cancelled mid-request - some right after their genuine reply reached the table, some before a late genuine reply arrives - (+0..5 that time out normally), then one more request after 2× the timeout: the pending table must be empty");
     run.prop("sweep", run.tier.pick(240, 1200), sh, (any::<u8>(), any::<u8>(), prop_oneof![1 => Just(0u8), 2 => any::<u8>()], prop_oneof![1 => Just(0u8), 2 => any::<u8>()]).prop_map(|(cancelled, completed, reply_then_cancel, cancel_then_reply)| SweepCase { cancelled, completed, reply_then_cancel, cancel_then_reply }), run_sweep);
 }
@@ -847,6 +933,7 @@ pub fn replay(run: &Run, sub: &str, case: &Value) -> Option<bool> {
     match sub {
         "script" => Some(run.eval_case("replay/script", &from_value::<Case>(case)?, &run_case)),
         "cap" => Some(run.eval_case("replay/cap", &from_value::<CapCase>(case)?, &run_cap)),
+        "cap_threads" => Some(run.eval_case("replay/cap_threads", &from_value::<CapThreadsCase>(case)?, &run_cap_threads)),
         "sweep" => Some(run.eval_case("replay/sweep", &from_value::<SweepCase>(case)?, &run_sweep)),
         "core" => Some(run.eval_case("replay/core", &from_value::<CoreCase>(case)?, &run_core)),
         "core_cap" => Some(run.eval_case("replay/core_cap", &from_value::<CoreCapCase>(case)?, &run_core_cap)),
